@@ -48,6 +48,227 @@ def default_idiom(tree):
     return _DefaultIdiom().visit(tree)
 
 
+def _all_stmt_lists(tree):
+    for n in ast.walk(tree):
+        for fld in ('body', 'orelse', 'finalbody'):
+            sub = getattr(n, fld, None)
+            if isinstance(sub, list) and sub and isinstance(sub[0], ast.stmt):
+                yield sub
+
+
+def _is_call_of(st, attr):
+    """`<recv>.<attr>()` as a statement: the receiver's text, else None"""
+    if isinstance(st, ast.Expr) and isinstance(st.value, ast.Call) and isinstance(st.value.func, ast.Attribute) and \
+            st.value.func.attr == attr and not st.value.args and not st.value.keywords:
+        return ast.unparse(st.value.func.value)
+    return None
+
+
+def with_form(tree):
+    """X.acquire(); try: BODY finally: X.release()   ->   with X: BODY"""
+    n = 0
+    for lst in _all_stmt_lists(tree):
+        i = 0
+        while i + 1 < len(lst):
+            recv = _is_call_of(lst[i], 'acquire')
+            t = lst[i + 1]
+            if recv is not None and isinstance(t, ast.Try) and not t.handlers and not t.orelse and \
+                    len(t.finalbody) == 1 and _is_call_of(t.finalbody[0], 'release') == recv:
+                w = ast.With([ast.withitem(lst[i].value.func.value, None)], t.body)
+                ast.copy_location(w, lst[i])
+                ast.fix_missing_locations(w)
+                lst[i:i + 2] = [w]
+                n += 1
+            i += 1
+    return n
+
+
+def _single_if(body):
+    """body is `if C: <stmts>` without else: (C, stmts)"""
+    if len(body) == 1 and isinstance(body[0], ast.If) and not body[0].orelse:
+        return body[0].test, body[0].body
+    return None, None
+
+
+def search_loops(tree):
+    """the two spellings of "first match or default" are read as next(<generator>, default):
+         for T in IT:                                  V = D
+             if C: return E          and               for T in IT:
+         return D                                          if C: V = E; break
+    """
+    n = 0
+    for lst in _all_stmt_lists(tree):
+        i = 0
+        while i + 1 < len(lst):
+            a, b = lst[i], lst[i + 1]
+            # return form
+            if isinstance(a, ast.For) and not a.orelse and isinstance(b, ast.Return) and b.value is not None:
+                c, inner = _single_if(a.body)
+                if c is not None and len(inner) == 1 and isinstance(inner[0], ast.Return) and \
+                        inner[0].value is not None:
+                    gen = ast.GeneratorExp(inner[0].value, [ast.comprehension(a.target, a.iter, [c], 0)])
+                    new = ast.Return(ast.Call(ast.Name('next', ast.Load()), [gen, b.value], []))
+                    ast.copy_location(new, a)
+                    ast.fix_missing_locations(new)
+                    lst[i:i + 2] = [new]
+                    n += 1
+                    continue
+            # assignment form
+            if isinstance(a, ast.Assign) and len(a.targets) == 1 and isinstance(b, ast.For) and not b.orelse:
+                c, inner = _single_if(b.body)
+                if c is not None and len(inner) == 2 and isinstance(inner[1], ast.Break) and \
+                        isinstance(inner[0], ast.Assign) and len(inner[0].targets) == 1 and \
+                        ast.dump(inner[0].targets[0]) == ast.dump(a.targets[0]):
+                    gen = ast.GeneratorExp(inner[0].value, [ast.comprehension(b.target, b.iter, [c], 0)])
+                    new = ast.Assign(a.targets, ast.Call(ast.Name('next', ast.Load()), [gen, a.value], []))
+                    ast.copy_location(new, a)
+                    ast.fix_missing_locations(new)
+                    lst[i:i + 2] = [new]
+                    n += 1
+                    continue
+            i += 1
+    return n
+
+
+def builder_forms(tree, is_new):
+    """two ways to build a value in a NEW local (is_new(function node, name)) are read as one expression, which
+    forward_new_locals can then read through:
+         V = []                                         if C: V = A
+         for T in IT:            ->  V = [E for ...]    else: V = B          ->  V = A if C else B
+             if C: V.append(E)
+    """
+    n = 0
+    for fn in ast.walk(tree):
+        if not isinstance(fn, (ast.FunctionDef, ast.AsyncFunctionDef)):
+            continue
+        for lst in _all_stmt_lists(fn):
+            i = 0
+            while i < len(lst):
+                a = lst[i]
+                b = lst[i + 1] if i + 1 < len(lst) else None
+                if isinstance(a, ast.Assign) and len(a.targets) == 1 and isinstance(a.targets[0], ast.Name) and \
+                        isinstance(a.value, ast.List) and not a.value.elts and isinstance(b, ast.For) and \
+                        not b.orelse and is_new(fn, a.targets[0].id):
+                    v = a.targets[0].id
+                    c, inner = _single_if(b.body)
+                    if c is None:
+                        inner = b.body
+                    if len(inner) == 1 and isinstance(inner[0], ast.Expr) and isinstance(inner[0].value, ast.Call) \
+                            and ast.unparse(inner[0].value.func) == v + '.append' and len(inner[0].value.args) == 1 \
+                            and not any(isinstance(x, ast.Name) and x.id == v
+                                        for y in [inner[0].value.args[0], b.iter] + ([c] if c is not None else [])
+                                        for x in ast.walk(y)):
+                        comp = ast.ListComp(inner[0].value.args[0],
+                                            [ast.comprehension(b.target, b.iter, [c] if c is not None else [], 0)])
+                        new = ast.Assign(a.targets, comp)
+                        ast.copy_location(new, a)
+                        ast.fix_missing_locations(new)
+                        lst[i:i + 2] = [new]
+                        n += 1
+                        continue
+                if isinstance(a, ast.If) and len(a.body) == 1 and len(a.orelse) == 1 and \
+                        all(isinstance(s, ast.Assign) and len(s.targets) == 1 and isinstance(s.targets[0], ast.Name)
+                            for s in (a.body[0], a.orelse[0])) and \
+                        a.body[0].targets[0].id == a.orelse[0].targets[0].id and is_new(fn, a.body[0].targets[0].id):
+                    new = ast.Assign(a.body[0].targets, ast.IfExp(a.test, a.body[0].value, a.orelse[0].value))
+                    ast.copy_location(new, a)
+                    ast.fix_missing_locations(new)
+                    lst[i] = new
+                    n += 1
+                i += 1
+    return n
+
+
+def restore_staticmethods(tree, modname, known):
+    """a staticmethod of the reference tree that became a new module-level function, the class keeping
+    `NAME = staticmethod(func)`: read as the staticmethod again, calls from the class's methods as self.NAME(...)"""
+    done = []
+    top = {n.name: n for n in tree.body if isinstance(n, ast.FunctionDef)}
+    for c in [n for n in tree.body if isinstance(n, ast.ClassDef)]:
+        for i, st in enumerate(list(c.body)):
+            if not (isinstance(st, ast.Assign) and len(st.targets) == 1 and isinstance(st.targets[0], ast.Name) and
+                    isinstance(st.value, ast.Call) and isinstance(st.value.func, ast.Name) and
+                    st.value.func.id == 'staticmethod' and len(st.value.args) == 1 and
+                    isinstance(st.value.args[0], ast.Name)):
+                continue
+            name, fname = st.targets[0].id, st.value.args[0].id
+            f = top.get(fname)
+            if f is None or '%s:%s' % (modname, fname) in known or '%s:%s.%s' % (modname, c.name, name) not in known \
+                    or f.decorator_list:
+                continue
+            new = copy.deepcopy(f)
+            new.name = name
+            new.decorator_list = [ast.Name('staticmethod', ast.Load())]
+            ast.copy_location(new.decorator_list[0], new)
+            c.body[c.body.index(st)] = new
+            for m_ in c.body:
+                if not isinstance(m_, ast.FunctionDef) or m_ is new or not m_.args.args:
+                    continue
+                if any(isinstance(d, ast.Name) and d.id == 'staticmethod' for d in m_.decorator_list):
+                    continue
+                recv = m_.args.args[0].arg
+                for call in [x for x in ast.walk(m_) if isinstance(x, ast.Call)]:
+                    if isinstance(call.func, ast.Name) and call.func.id == fname:
+                        call.func = ast.copy_location(
+                            ast.Attribute(ast.copy_location(ast.Name(recv, ast.Load()), call.func), name, ast.Load()),
+                            call.func)
+            if not any(isinstance(x, ast.Name) and x.id == fname for x in ast.walk(tree)):
+                tree.body.remove(f)
+            done.append('%s.%s' % (c.name, name))
+    return done
+
+
+def local_generators(tree, is_new):
+    """a NEW nested generator function without parameters whose body is `for T in IT: [if C:] yield E` and which is
+    only ever called: each call is read as the generator expression (E for T in IT [if C])"""
+    n = 0
+    for fn in ast.walk(tree):
+        if not isinstance(fn, (ast.FunctionDef, ast.AsyncFunctionDef)):
+            continue
+        for lst in _all_stmt_lists(fn):
+            for g in [s for s in lst if isinstance(s, ast.FunctionDef)]:
+                if not is_new(fn, g.name) or g.decorator_list:
+                    continue
+                a = g.args
+                if a.args or a.vararg or a.kwarg or a.kwonlyargs or a.posonlyargs:
+                    continue
+                body = [s for s in g.body if not (isinstance(s, ast.Expr) and isinstance(s.value, ast.Constant))]
+                if len(body) != 1 or not isinstance(body[0], ast.For) or body[0].orelse:
+                    continue
+                loop = body[0]
+                c, inner = _single_if(loop.body)
+                if c is None:
+                    inner = loop.body
+                if not (len(inner) == 1 and isinstance(inner[0], ast.Expr) and isinstance(inner[0].value, ast.Yield)
+                        and inner[0].value.value is not None):
+                    continue
+                refs = [x for x in ast.walk(fn) if isinstance(x, ast.Name) and x.id == g.name]
+                calls = [x for x in ast.walk(fn) if isinstance(x, ast.Call) and isinstance(x.func, ast.Name) and
+                         x.func.id == g.name and not x.args and not x.keywords]
+                if not calls or len(refs) != len(calls):
+                    continue
+                for call in calls:
+                    gen = ast.GeneratorExp(copy.deepcopy(inner[0].value.value), [ast.comprehension(
+                        copy.deepcopy(loop.target), copy.deepcopy(loop.iter), [copy.deepcopy(c)] if c is not None else [], 0)])
+                    for x in ast.walk(gen):
+                        if isinstance(x, (ast.expr, ast.comprehension)):
+                            ast.copy_location(x, call) if isinstance(x, ast.expr) else None
+                    ast.fix_missing_locations(ast.copy_location(gen, call))
+                    for parent in ast.walk(fn):
+                        for fld, val in ast.iter_fields(parent):
+                            if val is call:
+                                setattr(parent, fld, gen)
+                            elif isinstance(val, list):
+                                for k, item in enumerate(val):
+                                    if item is call:
+                                        val[k] = gen
+                lst.remove(g)
+                if not lst:
+                    lst.append(ast.copy_location(ast.Pass(), g))
+                n += 1
+    return n
+
+
 def _literal(v):
     if isinstance(v, ast.Constant) and not isinstance(v.value, (bytes,)) or \
             (isinstance(v, ast.Constant) and isinstance(v.value, bytes)):
@@ -269,6 +490,30 @@ def _forward_in(fn, ref_locals, top_level=True):
         if not progress:
             break
     return done
+
+
+def new_local_test(tree, modname, ref_locals):
+    """is_new(function node, name): the name is not a local of that function (or of the function it is nested in) on
+    the reference tree; False for functions the reference tree does not have"""
+    table = {}
+
+    def visit(body, prefix):
+        for st in body:
+            if isinstance(st, (ast.FunctionDef, ast.AsyncFunctionDef)):
+                q = '%s:%s%s' % (modname, prefix, st.name)
+                if q in (ref_locals or {}):
+                    for sub in ast.walk(st):
+                        if isinstance(sub, (ast.FunctionDef, ast.AsyncFunctionDef)):
+                            table[id(sub)] = set(ref_locals[q])
+            elif isinstance(st, ast.ClassDef):
+                visit(st.body, prefix + st.name + '.')
+            elif isinstance(st, (ast.If, ast.Try)):
+                for fld in ('body', 'orelse', 'finalbody'):
+                    visit(getattr(st, fld, []) or [], prefix)
+                for h in getattr(st, 'handlers', []):
+                    visit(h.body, prefix)
+    visit(tree.body, '')
+    return lambda fn, name: id(fn) in table and name not in table[id(fn)]
 
 
 def forward_new_locals(tree, modname, ref_locals):
